@@ -355,6 +355,7 @@ def c03(ctx):
         ctx.add(out, lab, CO.rule_W2b, ctx, prog, lab)
         ctx.add(out, lab, PV.rule_FP1, ctx, prog, lab)
         ctx.add(out, lab, BM.rule_CL1, ctx, prog, lab)
+        ctx.add(out, lab, CT.rule_F11, ctx, prog, lab)
     return out
 
 
@@ -458,6 +459,7 @@ def c12(ctx):
         ctx.add(out, lab, CT.rule_F1, ctx, prog, lab, rule='J3-F1')
         ctx.add(out, lab, CR.rule_A1, ctx, prog, lab, rule='J3-A1')
         ctx.add(out, lab, BM.rule_CL1, ctx, prog, lab, rule='J3-CL1')
+        ctx.add(out, lab, CT.rule_F11, ctx, prog, lab, rule='J3-F11')
     return out
 
 
@@ -588,6 +590,7 @@ def c06(ctx):
         ctx.add(out, lab, R.rule_E1, ctx, prog, lab, only_funcs=SOLVE_FUNCS, rule='E1-solve')
         ctx.add(out, lab, CT.rule_F4, ctx, prog, lab)
         ctx.add(out, lab, BM.rule_CL1, ctx, prog, lab)
+        ctx.add(out, lab, CT.rule_F11, ctx, prog, lab)
         ctx.add(out, lab, PV.rule_FP1, ctx, prog, lab)
     return out
 
@@ -613,6 +616,7 @@ def c07(ctx):
         ctx.add(out, lab, CT.rule_F4, ctx, prog, lab)
         ctx.add(out, lab, PV.rule_FP1, ctx, prog, lab)
         ctx.add(out, lab, BM.rule_CL1, ctx, prog, lab)
+        ctx.add(out, lab, CT.rule_F11, ctx, prog, lab)
         ctx.add(out, lab, CO.rule_W2, ctx, prog, lab)
         ctx.add(out, lab, CO.rule_W2b, ctx, prog, lab)
     return out
